@@ -543,6 +543,9 @@ func (c *HostClient) doNonNilReqResp(req *protocol.Request, resp *protocol.Respo
 	customSkipBody := resp.SkipBody
 	resp.Reset()
 	resp.SkipBody = customSkipBody
+	// what this exchange does to the flag (HEAD, CONNECT) is not the caller's wish for the
+	// next exchange with the same response object
+	defer func() { resp.SkipBody = customSkipBody }()
 
 	if c.DisablePathNormalizing {
 		req.URI().DisablePathNormalizing = true
